@@ -2822,3 +2822,399 @@ func ruleModifierGuardComplete(r *Run) {
 		o.OK("all matching fields of the modifier are tested").At(r.pos(fn.Pos()))
 	}
 }
+
+// ---- rules added after seed round v/w ----
+
+// ruleUnquoteOnly (PV-API): the value of a string literal is what strutil.Unquote makes of its
+// text: a helper of the lexer that calls strutil.Unquote returns nothing else (no short cut that
+// strips the quotes by hand).
+func ruleUnquoteOnly(r *Run) {
+	p := r.P
+	o := r.Ob("PV-API", "lexer string literal value", "every function of the lexer that unquotes a literal returns the result of strutil.Unquote on each path: there is no hand-written fast path next to it")
+	n, good := 0, true
+	for _, fn := range p.SrcFuncs() {
+		if pkgPathOf(fn) != modPath+"/"+lexerPkg {
+			continue
+		}
+		var uq []*ssa.Call
+		for _, c := range callsIn(fn) {
+			if pk, nm := calleePkgName(c); strings.HasSuffix(pk, "strutil") && nm == "Unquote" {
+				if call, ok := c.(*ssa.Call); ok {
+					uq = append(uq, call)
+				}
+			}
+		}
+		if len(uq) == 0 {
+			continue
+		}
+		n++
+		res := fn.Signature.Results()
+		if res.Len() == 0 || !isStringType(res.At(0).Type()) {
+			continue // the scanner step itself: the literal's value is stored into the token (checked by the token rules)
+		}
+		for _, ret := range returnsOf(fn) {
+			for _, lv := range phiLeaves(unspill(ret.Results[0])) {
+				if c, idx, ok := extractOf(lv); ok && idx == 0 {
+					isU := false
+					for _, u := range uq {
+						if u == c {
+							isU = true
+						}
+					}
+					if isU {
+						continue
+					}
+				}
+				if s, ok := constStr(lv); ok && s == "" {
+					continue
+				}
+				good = false
+				o.Fail(r.pos(ret.Pos()), "%s can return %s as the literal's value, not the result of strutil.Unquote", shortFuncName(fn), describe(lv, 0))
+			}
+		}
+	}
+	if n == 0 {
+		o.Fail("-", "no strutil.Unquote call found in the lexer")
+		return
+	}
+	if good {
+		o.OK("%d function(s) unquote literals, only through strutil.Unquote", n)
+	}
+}
+
+// ruleParserKeepsStageOrder (PV-ORDER): the parser returns the stages of a pipeline in the
+// order they were written: stage lists are only ever appended to (no element store by index, no
+// copy within the list).
+func ruleParserKeepsStageOrder(r *Run) {
+	p := r.P
+	o := r.Ob("PV-ORDER", "logql parser stage order", "a []PipelineStage is built by append only in the parser: no stage is moved, swapped or overwritten after it was parsed")
+	isStageSlice := func(t types.Type) bool {
+		sl, ok := t.Underlying().(*types.Slice)
+		return ok && typeKey(sl.Elem()) == "PipelineStage"
+	}
+	n, good := 0, true
+	for _, fn := range p.SrcFuncs() {
+		if pkgPathOf(fn) != modPath+"/"+logqlPkg {
+			continue
+		}
+		n++
+		allInstrs(fn, func(in ssa.Instruction) {
+			switch x := in.(type) {
+			case *ssa.Store:
+				if ia, ok := x.Addr.(*ssa.IndexAddr); ok && isStageSlice(ia.X.Type()) {
+					// the one-element backing array of a variadic append is an array, not a slice
+					good = false
+					o.Fail(r.pos(x.Pos()), "%s overwrites an element of a stage list", shortFuncName(fn))
+				}
+			case *ssa.Call:
+				if bi, ok := x.Call.Value.(*ssa.Builtin); ok && bi.Name() == "copy" && len(x.Call.Args) == 2 && isStageSlice(x.Call.Args[0].Type()) {
+					good = false
+					o.Fail(r.pos(x.Pos()), "%s moves stages within a stage list (copy)", shortFuncName(fn))
+				}
+				if pk, nm := calleePkgName(x); (pk == "slices" || strings.HasSuffix(pk, "exp/slices") || pk == "sort") && len(x.Call.Args) > 0 && isStageSlice(x.Call.Args[0].Type()) {
+					switch nm {
+					case "SortFunc", "SortStableFunc", "Reverse", "Insert", "Delete", "DeleteFunc", "Slice", "SliceStable":
+						good = false
+						o.Fail(r.pos(x.Pos()), "%s reorders a stage list (%s)", shortFuncName(fn), nm)
+					}
+				}
+			}
+		})
+	}
+	if good {
+		o.OK("%d function(s) of the parser package: stage lists are append-only", n)
+	}
+}
+
+// ruleTemplateDataIsLabels (PV-ROLE): a template is executed over the labels of the record:
+// the data argument of every Execute call in the engine is the result of LabelSet.AsMap(), on
+// every path (not a map chosen by a pre-check of the template).
+func ruleTemplateDataIsLabels(r *Run) {
+	p := r.P
+	eng := modPath + "/" + enginePkg
+	o := r.Ob("PV-ROLE", "logqlengine template data", "(*template.Template).Execute is given set.AsMap() as its data on every path")
+	n, good := 0, true
+	for _, fn := range p.SrcFuncs() {
+		if pkgPathOf(fn) != eng {
+			continue
+		}
+		for _, c := range callsIn(fn) {
+			if !callIs(c, "text/template", "(*Template).Execute") || len(c.Common().Args) != 3 {
+				continue
+			}
+			n++
+			v := unspill(c.Common().Args[2])
+			ok := true
+			for _, lv := range phiLeaves(v) {
+				x := lv
+				if mi, isMI := x.(*ssa.MakeInterface); isMI {
+					x = unspill(mi.X)
+				}
+				okLeaf := false
+				for _, l2 := range phiLeaves(x) {
+					if call, isCall := l2.(*ssa.Call); isCall && callIs(call, eng, "(*LabelSet).AsMap") {
+						okLeaf = true
+					} else {
+						okLeaf = false
+						break
+					}
+				}
+				if !okLeaf {
+					ok = false
+				}
+			}
+			if !ok {
+				good = false
+				o.Fail(r.pos(c.Pos()), "%s executes a template over %s, which is not always the record's label map", shortFuncName(fn), describe(c.Common().Args[2], 0))
+			}
+		}
+	}
+	if n < 2 {
+		o.Fail("-", "only %d template Execute call(s) found in the engine", n)
+		return
+	}
+	if good {
+		o.OK("%d Execute call(s), all over set.AsMap()", n)
+	}
+}
+
+// ruleBatchApplierAlwaysAggregates (PV-ROLE): the batch form of a streaming aggregator is the
+// aggregator applied to every point: batchApplier.Aggregate returns agg.Result() on every path.
+func ruleBatchApplierAlwaysAggregates(r *Run) {
+	p := r.P
+	o := r.Ob("PV-ROLE", "logqlmetric.batchApplier.Aggregate", "every return of batchApplier.Aggregate is the aggregator's Result() after the points were applied: no short cut for one point (stddev of one point is 0, not the point)")
+	fn := p.Method(metricPkg, "batchApplier", "Aggregate")
+	if fn == nil {
+		o.Fail("-", "batchApplier.Aggregate not found")
+		return
+	}
+	n, good := 0, true
+	for _, ret := range returnsOf(fn) {
+		if len(ret.Results) != 1 {
+			continue
+		}
+		for _, lv := range phiLeaves(unspill(ret.Results[0])) {
+			n++
+			c, ok := lv.(*ssa.Call)
+			if !ok || !(c.Call.IsInvoke() && c.Call.Method.Name() == "Result") && (staticCallee(c) == nil || staticCallee(c).Name() != "Result") {
+				good = false
+				o.Fail(r.pos(ret.Pos()), "batchApplier.Aggregate can return %s instead of the aggregator's result", describe(lv, 0))
+			}
+		}
+	}
+	if n == 0 {
+		o.Fail(r.pos(fn.Pos()), "no return found")
+		return
+	}
+	if good {
+		o.OK("%d return value(s), all agg.Result()", n).At(r.pos(fn.Pos()))
+	}
+}
+
+// ruleIterEndsWithSource (PV-GUARD): an iterator that transforms another ends exactly when its
+// source ends (so that its Err(), which is the source's, explains the end): every `return false`
+// of Next is taken on an edge where a Next of an inner iterator (or the stepper) said false.
+func ruleIterEndsWithSource(r *Run) {
+	p := r.P
+	o := r.Ob("PV-GUARD", "iterators end with their source", "Next of the listed wrappers returns false only where an inner Next / the stepper returned false: no flag, context or counter ends the iteration silently")
+	type tm struct{ rel, typ string }
+	n, good := 0, true
+	for _, t := range []tm{{enginePkg, "sampleIterator"}, {metricPkg, "rangeAggIterator"}, {metricPkg, "vectorAggIterator"}, {metricPkg, "vectorAggHeapIterator"}, {metricPkg, "literalBinOpIterator"}, {metricPkg, "binOpIterator"}, {metricPkg, "mergeBinOpIterator"}, {metricPkg, "labelReplaceIterator"}} {
+		fn := p.Method(t.rel, t.typ, "Next")
+		if fn == nil {
+			continue
+		}
+		n++
+		isSourceVerdict := func(f condFact) bool {
+			f = normFact(f)
+			if f.Truth {
+				return false
+			}
+			v := f.Cond
+			if ex, ok := v.(*ssa.Extract); ok {
+				v = ex.Tuple
+			}
+			c, ok := v.(*ssa.Call)
+			if !ok {
+				return false
+			}
+			if c.Call.IsInvoke() && c.Call.Method.Name() == "Next" {
+				return true
+			}
+			if callee := staticCallee(c); callee != nil && (callee.Name() == "next" || callee.Name() == "Next") {
+				return true
+			}
+			// a helper of the iterator that forwards the source's verdict
+			if callee := staticCallee(c); callee != nil && callee.Blocks != nil && pkgOfFunc(callee) == pkgOfFunc(fn) {
+				for _, c2 := range callsIn(callee) {
+					if cc, ok := c2.(*ssa.Call); ok && cc.Call.IsInvoke() && cc.Call.Method.Name() == "Next" {
+						return true
+					}
+				}
+			}
+			return false
+		}
+		for _, ret := range returnsOf(fn) {
+			if len(ret.Results) != 1 {
+				continue
+			}
+			for _, lp := range phiLeavesWithPred(ret.Results[0], ret.Block()) {
+				if !isConstBool(lp.V, false) {
+					continue
+				}
+				okEdge := false
+				for _, f := range factsAt(ret.Block()) {
+					if isSourceVerdict(f) {
+						okEdge = true
+					}
+				}
+				edgeOK := func(pred *ssa.BasicBlock) bool {
+					if f, ok := edgeFact(pred, ret.Block()); ok && isSourceVerdict(f) {
+						return true
+					}
+					for _, f := range factsAt(pred) {
+						if isSourceVerdict(f) {
+							return true
+						}
+					}
+					return false
+				}
+				if !okEdge && lp.Pred != nil {
+					okEdge = edgeOK(lp.Pred)
+				}
+				if !okEdge && lp.Pred == nil && len(ret.Block().Preds) > 0 {
+					// a shared `return false` block: every way into it is a source's verdict
+					okEdge = true
+					for _, pb := range ret.Block().Preds {
+						if !edgeOK(pb) {
+							okEdge = false
+						}
+					}
+				}
+				if !okEdge {
+					good = false
+					o.Fail(r.pos(ret.Pos()), "%s can return false where no inner iterator said it is exhausted: the iteration ends without a reason its Err() reports", shortFuncName(fn))
+				}
+			}
+		}
+	}
+	if n < 5 {
+		o.Fail("-", "only %d wrapper Next method(s) found", n)
+		return
+	}
+	if good {
+		o.OK("%d wrapper(s): false only on the source's verdict", n)
+	}
+}
+
+// ruleVectorAggValuesFromAggregator (PV-ROLE): the value of every series a vector aggregation
+// reports is the Result() of the group's aggregator (a lone series is a group too: its stddev
+// is 0, its count 1).
+func ruleVectorAggValuesFromAggregator(r *Run) {
+	p := r.P
+	o := r.Ob("PV-ROLE", "logqlmetric.(*vectorAggIterator).Next values", "every Sample.Data written by vectorAggIterator.Next is an aggregator's Result()")
+	fn := p.Method(metricPkg, "vectorAggIterator", "Next")
+	if fn == nil {
+		o.Fail("-", "vectorAggIterator.Next not found")
+		return
+	}
+	n, good := 0, true
+	for _, g := range funcGroup(fn) {
+		allInstrs(g, func(in ssa.Instruction) {
+			st, ok := in.(*ssa.Store)
+			if !ok {
+				return
+			}
+			f, base, ok := fieldNameOf(st.Addr)
+			if !ok || f != "Data" || typeKey(derefType(base.Type())) != "Sample" {
+				return
+			}
+			n++
+			c, isCall := unspill(st.Val).(*ssa.Call)
+			if !isCall || !c.Call.IsInvoke() || c.Call.Method.Name() != "Result" {
+				good = false
+				o.Fail(r.pos(st.Pos()), "a reported sample's value is %s, not an aggregator's Result()", describe(st.Val, 0))
+			}
+		})
+	}
+	if n == 0 {
+		o.Fail(r.pos(fn.Pos()), "no Sample.Data store found")
+		return
+	}
+	if good {
+		o.OK("%d value(s), all Aggregator.Result()", n).At(r.pos(fn.Pos()))
+	}
+}
+
+// ruleNowAtRunTime (PV-ROLE): "now" is the moment the query runs: the time handed to
+// parseTimeRange is a time.Now() call made in the function that calls it (the command's run
+// function), not a value captured when the command was built.
+func ruleNowAtRunTime(r *Run) {
+	p := r.P
+	cm := modPath + "/" + cmdPkg
+	o := r.Ob("PV-ROLE", "main now", "parseTimeRange is given time.Now() evaluated in the run function itself")
+	n, good := 0, true
+	for _, fn := range p.SrcFuncs() {
+		if pkgPathOf(fn) != cm {
+			continue
+		}
+		for _, c := range callsIn(fn) {
+			if !callIs(c, cm, "parseTimeRange") {
+				continue
+			}
+			n++
+			a := unspill(c.Common().Args[0])
+			call, ok := a.(*ssa.Call)
+			if !ok || func() bool { pk, nm := calleePkgName(call); return pk != "time" || nm != "Now" }() || call.Parent() != fn {
+				good = false
+				o.Fail(r.pos(c.Pos()), "parseTimeRange is given %s as now, not time.Now() taken when the query runs", describe(c.Common().Args[0], 0))
+			}
+		}
+	}
+	if n == 0 {
+		o.Fail("-", "no parseTimeRange call found")
+		return
+	}
+	if good {
+		o.OK("%d call(s): parseTimeRange(time.Now(), ...)", n)
+	}
+}
+
+// ruleErrorsAsTargets (PF-NIL): errors.As panics on a nil target: its second argument is the
+// address of a variable (&x), never the value of a pointer variable that may be nil.
+func ruleErrorsAsTargets(r *Run, rels []string) {
+	p := r.P
+	o := r.Ob("PF-NIL", "errors.As targets", "the target handed to errors.As is the address of a local or field (&target), not a pointer value read from a variable")
+	n, good := 0, true
+	for _, fn := range p.SrcFuncs() {
+		in := false
+		for _, rel := range rels {
+			if pkgPathOf(fn) == modPath+"/"+rel {
+				in = true
+			}
+		}
+		if !in {
+			continue
+		}
+		for _, c := range callsIn(fn) {
+			pk, nm := calleePkgName(c)
+			if nm != "As" || !(pk == "errors" || strings.HasSuffix(pk, "go-faster/errors")) || len(c.Common().Args) != 2 {
+				continue
+			}
+			n++
+			t := c.Common().Args[1]
+			if mi, ok := t.(*ssa.MakeInterface); ok {
+				t = mi.X
+			}
+			switch t.(type) {
+			case *ssa.Alloc, *ssa.FieldAddr, *ssa.IndexAddr, *ssa.Global:
+			default:
+				good = false
+				o.Fail(r.pos(c.Pos()), "%s calls errors.As with target %s: a pointer value (nil unless assigned), errors.As panics on it", shortFuncName(fn), describe(t, 0))
+			}
+		}
+	}
+	if good {
+		o.OK("%d errors.As call(s), all with an address-of target", n)
+	}
+}
